@@ -6,6 +6,8 @@ from=$1; to=$2; shift 2
 ids=${@:-C13 C19 C18 C17 C08 C06 C20 C14}
 out=${MULTISEED_OUT:-/tmp/nv-multiseed}
 rm -rf $out; mkdir -p $out/bin
+# binaries of the current /repo working tree (a seeded-change test may have left mutated ones behind)
+(cd /verif && ./build.sh dev && ./build.sh asan) || { echo "build failed"; exit 2; }
 cp /verif/target/sim/debug/nvsim $out/bin/nvsim
 cp /verif/target/sim-asan/x86_64-unknown-linux-gnu/debug/nvsim $out/bin/nvsim-asan
 cp /verif/target/repo/debug/nitrogql-cli $out/bin/nitrogql-cli
